@@ -125,7 +125,7 @@ def module_imports(mod: Module) -> T.Dict[str, str]:
 
 
 class Def:
-    __slots__ = ('id', 'name', 'node', 'strong', 'value', 'index', 'param')
+    __slots__ = ('id', 'name', 'node', 'strong', 'value', 'index', 'param', 'mut')
 
     def __init__(self, id: int, name: str, node: int, strong: bool, value: T.Optional[ast.AST], index: T.Optional[int] = None,
                  param: bool = False):
@@ -136,6 +136,7 @@ class Def:
         self.value = value
         self.index = index
         self.param = param
+        self.mut: T.Optional[str] = None      # weak definition by a callee that mutates its parameter `mut` (value = the call)
 
 
 class Sink(T.NamedTuple):
@@ -209,9 +210,31 @@ class Analyzer:
         self._imports: T.Dict[str, T.Dict[str, str]] = {}
         self.why_none: T.Dict[int, str] = {}          # id(fn) -> why the last summary request gave None
         self._struct: T.Dict[int, T.Any] = {}
+        self._mutp: T.Dict[int, T.Set[str]] = {}
         self.sites: T.List[T.Tuple[T.Optional[ast.AST], str]] = []   # unfollowed callees: (function if its source is known, description)
         self._site_of: T.Dict[T.Any, int] = {}
         self._mentions: T.Dict[T.Tuple[int, str], bool] = {}
+
+    def mutated_params(self, fn: ast.AST) -> T.Set[str]:
+        """Parameters of fn that its body mutates in place (append/extend/+=/x[k] = v ...), syntactically."""
+        key = id(fn)
+        r = self._mutp.get(key)
+        if r is None:
+            a = fn.args  # type: ignore[attr-defined]
+            params = {x.arg for x in a.posonlyargs + a.args + a.kwonlyargs} - {'self'}
+            r = set()
+            for n in ast.walk(fn):
+                if isinstance(n, ast.Call) and isinstance(n.func, ast.Attribute) and n.func.attr in MUTATORS and isinstance(n.func.value, ast.Name):
+                    if n.func.value.id in params:
+                        r.add(n.func.value.id)
+                elif isinstance(n, ast.AugAssign) and isinstance(n.target, ast.Name) and n.target.id in params:
+                    r.add(n.target.id)
+                elif isinstance(n, (ast.Assign, ast.AugAssign)):
+                    for t in (n.targets if isinstance(n, ast.Assign) else [n.target]):
+                        if isinstance(t, ast.Subscript) and isinstance(t.value, ast.Name) and t.value.id in params:
+                            r.add(t.value.id)
+            self._mutp[key] = r
+        return r
 
     def site(self, cfn: T.Optional[ast.AST], desc: str) -> int:
         key = id(cfn) if cfn is not None else desc
@@ -435,6 +458,24 @@ class FuncFlow:
             elif isinstance(n, ast.Call) and isinstance(n.func, ast.Attribute) and n.func.attr in MUTATORS:
                 for a in list(n.args) + [k.value for k in n.keywords]:
                     self._bind(node, n.func.value, a.value if isinstance(a, ast.Starred) else a, False)
+            elif isinstance(n, ast.Call) and any(isinstance(a, ast.Name) for a in n.args) and not any(isinstance(a, ast.Starred) for a in n.args):
+                fn2 = None
+                skip = False
+                f = n.func
+                if isinstance(f, ast.Attribute) and isinstance(f.value, ast.Name) and f.value.id == 'self':
+                    r = self.an.resolve_self(f.attr)
+                    if r is not None:
+                        fn2, skip = r[2], is_method(r[2])
+                elif isinstance(f, ast.Name) and self.mod.has_func(f.id):
+                    fn2 = self.mod.func(f.id)
+                if fn2 is not None and fn2 is not self.fn:
+                    mp = self.an.mutated_params(fn2)
+                    if mp:
+                        b = bind_args(fn2, n, skip)
+                        for p_, a_ in (b or {}).items():
+                            if p_ in mp and isinstance(a_, ast.Name):
+                                d = self._newdef(a_.id, node, False, n)
+                                d.mut = p_
             elif isinstance(n, (ast.ListComp, ast.SetComp, ast.GeneratorExp, ast.DictComp)):
                 for g in n.generators:
                     for t in ast.walk(g.target):
@@ -595,11 +636,49 @@ class FuncFlow:
         if d.value is None or isinstance(d.value, (ast.FunctionDef, ast.AsyncFunctionDef, ast.ClassDef)):
             return frozenset(), frozenset(['opaque'])
         node = self.cfg.nodes[d.node]
+        if d.mut is not None:
+            return self._ev_mutation(d, node, look)
         v = self._ev_top(d.value, node, d.index, look)
         if not d.strong:
             # a mutator / += / x[k] = v: the container derives from the value, it is not the value
             return frozenset(), v[1]
         return v
+
+    def _ev_mutation(self, d: Def, node: Node, look: T.Callable[[str, Node], Val]) -> Val:
+        """What a callee adds to the argument it mutates in place (`self._one(target, d, result)` appends to `result`)."""
+        c = d.value
+        cal = self._callee(c)  # type: ignore[arg-type]
+        if cal is None:
+            return EMPTY
+        summ = self.an.summary(cal[1], cal[2], cal[3], self.depth - 1)
+        argsval = self._args_val(c, node, {}, look)  # type: ignore[arg-type]
+        if summ is None or summ.ff is None:
+            if self.an.why_none.get(id(cal[3])) == 'recursion':
+                return EMPTY
+            return frozenset(), self._maybe(cal[3], cal[0], f'call:{cal[0]}', argsval, cal[4])[1]
+        bind = bind_args(cal[3], c, cal[4])  # type: ignore[arg-type]
+        if bind is None:
+            return frozenset(), self._maybe(cal[3], cal[0], f'call:{cal[0]}', argsval, cal[4])[1]
+        hf = summ.ff
+        vals = []
+        self.an.stack.append(id(cal[3]))
+        try:
+            for d2 in hf.defs:
+                if d2.name == d.mut and not d2.strong and not d2.param and d2.value is not None:
+                    vals.append(hf._evdef_public(d2))
+        finally:
+            self.an.stack.pop()
+        if not vals:
+            return EMPTY
+        mapped = self.map_summary(vjoin(*vals), bind, lambda x: self._ev(x, node, {}, look), keep_self=cal[4])
+        return frozenset(), mapped[1]
+
+    def _evdef_public(self, d: Def) -> Val:
+        node = self.cfg.nodes[d.node]
+        if d.mut is not None:
+            self.value_at(d.value, node)     # solve the arguments
+            return self._ev_mutation(d, node, self._look_eval)
+        return (frozenset(), self.value_at(d.value, node, d.index)[1])
 
     def _attr_ext(self, base: Val, rest: str) -> Val:
         ids = set()
@@ -1504,7 +1583,7 @@ class FuncFlow:
         self._live = live
         self._reachable_nodes = reachable
         self._consumers = consumers
-        return [d for d in self.defs if not d.strong and not d.param and d.id not in live and d.node in reachable
+        return [d for d in self.defs if not d.strong and not d.param and d.mut is None and d.id not in live and d.node in reachable
                 and d.name not in self.params and self._fresh_container(d)]
 
     def dead_defs(self, strong: bool = True) -> T.List[Def]:
